@@ -17,11 +17,11 @@ RULE = ("histories over a pool of 2 parsers (thorough: 3) and the alphabet {cons
         "(thorough <= 5) is enumerated (slots first used in order; of the maximal-length ones without any parse one in ten is kept); "
         "the shorter ones are each made concrete once, the maximal-length ones fill a budget of 1500 (thorough 20000) draws from "
         "VERIF_SEED - in the quick tier each about three times, independently (settings from all 18 combinations; dataclasses "
-        "{my_x:int}, +name:str, +pair:Tuple[int,str], +model:subgroups(ma|mb) at dest a, {other_y:int}, +tag:str at dest b; 15% of the parsers use ConflictResolution.NONE and may then get {my_x:int} at dest b too, so that every set-up raises ConflictResolutionError; valid argv "
+        "{my_x:int}, +name:str, +pair:Tuple[int,str], +model:subgroups(ma|mb) at dest a, {other_y:int}, +tag:str at dest b; 30% of the dest-a classes instead carry container-of-Enum fields List[E]/Optional[E]/Tuple[E,E] over four Enum classes of which three are DISTINCT classes with the SAME qualified name c08cls.Mode (different members, or the same members); observations carry member name, VALUE and whether the member's class is the one the dataclass declares; 15% of the parsers use ConflictResolution.NONE and may then get {my_x:int} at dest b too, so that every set-up raises ConflictResolutionError; valid argv "
         "written in the parser's OWN spelling, optionally naming config files; invalid argv = unknown option, non-int, missing value, "
         "bad choice (the SET-UP fails), bad/short/repeated tuple, field of the other subgroup, stray word, missing or extension-less file, foreign "
         "spelling, --help/-h); plus the standing witnesses of the known defects, the Example of Properties/C08.v and 150 (thorough "
-        "2000) random histories of length 5-10 (thorough 5-12). EACH HISTORY RUNS IN ITS OWN PROCESS; every parse is compared with "
+        "2000) random histories of length 5-10 (thorough 5-12) and 80 (thorough 1200) histories of 2-3 parsers that each get a dataclass with its own Enum class and are set up and parsed one after the other. EACH HISTORY RUNS IN ITS OWN PROCESS; every parse is compared with "
         "the model AND with a fresh-process run of the same definition + argv (the property's own oracle). Non-trivial = a parse "
         "preceded, since its parser was constructed, by another parse/help of that parser, a late add_arguments or the construction "
         "of another parser; distinct by full case.")
@@ -48,7 +48,36 @@ CLASSES = {
     "L2": [("other_y", "int", 2), ("tag", "str", "t")],
     "L3": [("my_x", "int", 5)],          # shares a field name with the K classes: only given to NONE-mode parsers
 }
+# Enum classes; M1, M2, M3 are DISTINCT classes with the SAME qualified name c08cls.Mode (M3 has M1's members)
+ENUM_MODULE = "c08cls"
+ENUMS = {
+    "M1": {"id": 1, "name": "Mode", "members": [("FAST", 1), ("SLOW", 2)]},
+    "M2": {"id": 2, "name": "Mode", "members": [("SLOW", 1), ("SAFE", 2)]},
+    "M3": {"id": 3, "name": "Mode", "members": [("FAST", 1), ("SLOW", 2)]},
+    "CO": {"id": 4, "name": "Color", "members": [("RED", 1), ("BLUE", 2)]},
+}
+# container-of-Enum fields (these, not plain Enum fields, go through the module-level registry of parsing functions);
+# one Enum class per dataclass
+CLASSES.update({
+    "E1": [("my_x", "int", 1), ("modes", "enum", ("list", "M1"))],
+    "E2": [("my_x", "int", 1), ("modes", "enum", ("list", "M2"))],
+    "E3": [("my_x", "int", 1), ("modes", "enum", ("list", "M3")), ("opt", "enum", ("opt", "M3"))],
+    "E4": [("my_x", "int", 1), ("opt", "enum", ("opt", "M2")), ("pr", "enum", ("pair", "M2"))],
+    "E5": [("my_x", "int", 1), ("pr", "enum", ("pair", "M1"))],
+    "E6": [("my_x", "int", 1), ("modes", "enum", ("list", "CO"))],
+})
+E_CLASSES = ["E1", "E2", "E3", "E4", "E5", "E6"]
 A_CLASSES, B_CLASSES = ["K1", "K2", "K3", "K4"], ["L1", "L2"]
+
+
+def enum_render(ename, member):
+    e = ENUMS[ename]
+    return f"enum:{ENUM_MODULE}.{e['name']}.{member}={dict(e['members'])[member]}"
+
+
+def enum_default(shape, ename):
+    ms = [m for m, _ in ENUMS[ename]["members"]]
+    return {"list": "list()", "opt": "none", "pair": f"tuple({enum_render(ename, ms[0])},{enum_render(ename, ms[1])})"}[shape]
 FILES = {"c1.json": {"a": {"my_x": 7}}, "c2.json": {"a": {"my_x": 8}}}
 DASH = ["AUTO", "DASH", "UNDERSCORE_AND_DASH"]
 GEN = ["FLAT", "NESTED", "BOTH"]
@@ -58,7 +87,11 @@ NONE_CFG = {"dash": "AUTO", "gen": "FLAT", "nm": "DEFAULT", "cr": "NONE"}
 
 
 def classes_src():
-    out = ["from dataclasses import dataclass", "from typing import Tuple", "from simple_parsing import subgroups", ""]
+    out = ["import enum", "from dataclasses import dataclass, field", "from typing import List, Optional, Tuple",
+           "from simple_parsing import subgroups", ""]
+    for en, e in ENUMS.items():
+        out.append(f"{en} = enum.Enum({e['name']!r}, {e['members']!r}, module={ENUM_MODULE!r})")
+    out.append("")
     subs = {}
     for fields in CLASSES.values():
         for _, kind, d in fields:
@@ -76,6 +109,12 @@ def classes_src():
                 out.append(f"    {name}: str = {d!r}")
             elif kind == "tup":
                 out.append(f"    {name}: Tuple[int, str] = {d!r}")
+            elif kind == "enum":
+                shape, en = d
+                ms = [m for m, _ in ENUMS[en]["members"]]
+                out.append({"list": f"    {name}: List[{en}] = field(default_factory=list)",
+                            "opt": f"    {name}: Optional[{en}] = None",
+                            "pair": f"    {name}: Tuple[{en}, {en}] = ({en}.{ms[0]}, {en}.{ms[1]})"}[shape])
             else:
                 alts = ", ".join(f"{k!r}: {c}" for k, c, _, _ in d["alts"])
                 out.append(f"    {name}: object = subgroups({{{alts}}}, default={d['default']!r})")
@@ -92,6 +131,10 @@ def coq_class(cname):
             fs.append(f"mkf {cstr(name)} FStr {cstr('str:' + d)}")
         elif kind == "tup":
             fs.append(f"mkf {cstr(name)} FTup {cstr('tuple(int:%d,str:%s)' % d)}")
+        elif kind == "enum":
+            shape, en = d
+            sh = {"list": "EList", "opt": "EOpt", "pair": "EPair"}[shape]
+            fs.append(f"mkf {cstr(name)} (FEnum {sh} enum_{en} false) {cstr(enum_default(shape, en))}")
         else:
             alts = clist([f"mkalt {cstr(k)} {cstr(c)} {cstr(fn)} {cstr('int:%d' % fd)}" for k, c, fn, fd in d["alts"]])
             fs.append(f"mkf {cstr(name)} (FSub {alts} {cstr(d['default'])}) \"\"")
@@ -106,7 +149,14 @@ def coq_files():
     return clist(rows)
 
 
+def coq_enum(en):
+    e = ENUMS[en]
+    ms = clist([cpair(cstr(m), cstr(str(v))) for m, v in e["members"]])
+    return f"(mkenum {cnat(e['id'])} {cstr(ENUM_MODULE + '.' + e['name'])} {ms})"
+
+
 COQ_HEADER = ("From SPV Require Import CorrDefs.CorrC08.\nOpen Scope string_scope.\n"
+              + "".join(f"Definition enum_{en} : enumdef := {coq_enum(en)}.\n" for en in ENUMS)
               + "".join(f"Definition cls_{c} : dcls := {coq_class(c)}.\n" for c in CLASSES)
               + f"Definition files_tbl : list (string * kv) := {coq_files()}.")
 COQ_CASE_TYPE = "case"
@@ -154,6 +204,12 @@ def groups_for(rng, cfg, adds, spell_cfg=None):
                 groups[name] = [o, rng.choice(VALUES_STR)]
             elif kind == "tup":
                 groups[name] = [o, rng.choice(VALUES_INT), rng.choice(VALUES_STR)]
+            elif kind == "enum":
+                shape, en = d
+                ms = [m for m, _ in ENUMS[en]["members"]]
+                n = {"list": rng.choice([0, 1, 2, 2]), "opt": rng.choice([0, 1, 1]), "pair": 2}[shape]
+                groups[name] = [o] + [rng.choice(ms) for _ in range(n)]
+                groups[name + ":enum"] = [o, en, shape]
             else:
                 key, _, fname, _ = rng.choice(d["alts"])
                 groups[name] = [o, key]
@@ -164,7 +220,7 @@ def groups_for(rng, cfg, adds, spell_cfg=None):
 def valid_argv(rng, pdef):
     cfg, cfgarg, adds = pdef
     groups = groups_for(rng, cfg, adds)
-    names = [n for n in groups if not n.endswith(":alt")]
+    names = [n for n in groups if ":" not in n]
     k = rng.choice([0, 1, 1, 2, 2, 3])
     chosen = rng.sample(names, min(k, len(names)))
     seq = []
@@ -193,6 +249,9 @@ def invalid_argv(rng, pdef):
         kinds += ["bad-choice", "bad-choice", "bad-choice", "wrong-alt"]      # an invalid key makes the SET-UP fail
     if cfgarg and any(d == "a" for _, d in adds):
         kinds += ["missing-file", "missing-file"]
+    enum_fields = sorted(k[:-len(":enum")] for k in groups if k.endswith(":enum"))
+    if enum_fields:
+        kinds += ["bad-member", "other-enums-member", "other-enums-member"]
     kind = rng.choice(kinds)
     if kind == "unknown":
         return base + ["--bogus"] + ([rng.choice(VALUES_INT)] if rng.random() < 0.5 else [])
@@ -202,10 +261,10 @@ def invalid_argv(rng, pdef):
         return base + [rng.choice(["--help", "-h"])]
     if kind == "foreign":
         g = groups_for(rng, cfg, adds, spell_cfg=other_cfg(rng, cfg))
-        n = rng.choice(sorted(k for k in g if not k.endswith(":alt")))
+        n = rng.choice(sorted(k for k in g if ":" not in k))
         return g[n]
     if kind == "missing-value":
-        n = rng.choice(sorted(k for k in groups if not k.endswith(":alt")))
+        n = rng.choice(sorted(k for k in groups if ":" not in k))
         return base + [groups[n][0]]
     if kind == "non-int":
         n = rng.choice([k for k in ("my_x", "other_y") if k in groups])
@@ -216,6 +275,13 @@ def invalid_argv(rng, pdef):
         return [groups["pair"][0], "3"]
     if kind == "two-tuples":
         return groups["pair"] + groups["pair"]
+    if kind in ("bad-member", "other-enums-member"):
+        n = rng.choice(enum_fields)
+        o, en, shape = groups[n + ":enum"]
+        own = [m for m, _ in ENUMS[en]["members"]]
+        foreign = sorted({m for e2 in ENUMS.values() for m, _ in e2["members"]} - set(own))
+        bad = "ZZ" if kind == "bad-member" else rng.choice(foreign)
+        return [o] + ([bad, rng.choice(own)] if shape != "opt" else [bad])
     if kind == "bad-choice":
         return [groups["model"][0], "zz"]
     if kind == "wrong-alt":
@@ -241,7 +307,7 @@ def random_cfg(rng):
     return {"dash": rng.choice(DASH), "gen": rng.choice(GEN), "nm": rng.choice(NM)}
 
 
-def concretise(rng, abstract):
+def concretise(rng, abstract, enum_bias=False):
     """abstract = [(symbol, slot)], symbol in C A PV PI H F -> concrete ops (ops that cannot be made concrete are dropped)"""
     defs = {}
     ops = []
@@ -268,8 +334,11 @@ def concretise(rng, abstract):
             free = [d for d in ("a", "b") if d not in used]
             if not free:
                 continue
-            dest = "a" if ("a" in free and (len(free) == 1 or rng.random() < 0.8)) else free[-1]
+            dest = "a" if ("a" in free and (enum_bias or len(free) == 1 or rng.random() < 0.8)) else free[-1]
             cname = rng.choice(A_CLASSES if dest == "a" else B_CLASSES)
+            used_e = [c for d in defs.values() for c, _ in d[2] if c in E_CLASSES]
+            if dest == "a" and rng.random() < (1.0 if enum_bias else 0.85 if used_e else 0.3):
+                cname = rng.choice(E_CLASSES)       # once one Enum class is around, the others tend to follow
             if dest == "b" and cfg.get("cr") == "NONE" and rng.random() < 0.6:
                 cname = "L3"
             adds.append((cname, dest))
@@ -339,6 +408,19 @@ WITNESSES = [
     # NONE mode without a clash (nested spelling) works like any other parser
     [["construct", 0, {"dash": "AUTO", "gen": "NESTED", "nm": "DEFAULT", "cr": "NONE"}, False], ["add", 0, "K1", "a"],
      ["add", 0, "L3", "b"], ["parse", 0, ["--a.my_x", "4"]], ["parse", 0, ["--b.my_x", "3"]]],
+    # distinct Enum classes with the same qualified name, parsed one after the other (seeded change C08-04)
+    [["construct", 0, dict(DEFAULT_CFG), False], ["add", 0, "E1", "a"], ["parse", 0, ["--modes", "FAST", "SLOW"]],
+     ["construct", 1, dict(DEFAULT_CFG), False], ["add", 1, "E2", "a"], ["parse", 1, ["--modes", "SLOW"]],
+     ["parse", 1, ["--modes", "SAFE", "SLOW"]], ["parse", 1, []]],
+    [["construct", 0, dict(DEFAULT_CFG), False], ["add", 0, "E1", "a"], ["print_help", 0],
+     ["construct", 0, dict(DEFAULT_CFG), False], ["add", 0, "E4", "a"], ["parse", 0, ["--opt", "SAFE", "--pr", "SLOW", "SAFE"]],
+     ["parse", 0, ["--opt"]]],
+    [["construct", 0, dict(DEFAULT_CFG), False], ["add", 0, "E5", "a"], ["parse", 0, ["--pr", "SLOW", "FAST"]],
+     ["construct", 1, dict(DEFAULT_CFG), False], ["add", 1, "E3", "a"], ["parse", 1, ["--modes", "FAST", "--opt", "SLOW"]],
+     ["parse", 0, ["--pr", "FAST", "FAST"]]],
+    [["construct", 0, dict(DEFAULT_CFG), False], ["add", 0, "E6", "a"], ["parse", 0, ["--modes", "RED"]],
+     ["construct", 1, dict(DEFAULT_CFG), False], ["add", 1, "E2", "a"], ["parse", 1, ["--modes", "SAFE", "--my_x", "3"]],
+     ["parse", 1, ["--modes", "RED"]], ["parse", 0, ["--modes", "BLUE", "RED"]]],
     # benign: three parsers interleaved (the Example of Properties/C08.v)
     [["construct", 0, {"dash": "DASH", "gen": "FLAT", "nm": "DEFAULT"}, False], ["add", 0, "K2", "a"], ["parse", 0, ["--my-x", "4"]],
      ["construct", 1, dict(DEFAULT_CFG), True], ["add", 1, "K4", "a"], ["add", 1, "L1", "b"],
@@ -372,6 +454,18 @@ def gen(tier, seed):
     picks += [longest[i % len(longest)] for i in range(budget)] if len(longest) <= budget else longest[:budget]
     for h in picks:
         ops = concretise(rng, h)
+        if ops:
+            cases.append({"ops": ops})
+    # several parsers whose dataclasses carry their own Enum classes, set up and parsed one after the other
+    for _ in range(80 if tier == "quick" else 1200):
+        h, built = [], 0
+        for _ in range(rng.choice([2, 2, 3])):
+            slot = rng.randrange(min(nslots, built + 1))
+            built = max(built, slot + 1)
+            h += [("C", slot), ("A", slot)] + [(rng.choice(["PV", "PV", "PV", "PI", "H"]), slot) for _ in range(rng.choice([1, 2]))]
+        h += [(rng.choice(["PV", "PV", "PI"]), rng.randrange(built)) for _ in range(rng.choice([0, 1, 2]))]
+        erng = random.Random(rng.random())
+        ops = concretise(erng, h, enum_bias=True)
         if ops:
             cases.append({"ops": ops})
     syms = ["C", "A", "A", "PV", "PV", "PV", "PI", "H", "F"]
@@ -501,6 +595,24 @@ def classify(case, obs, k):
     if r == ["raise", "IndexError"] and f != r and any(p[0] == "parse" for p, _ in since):
         return "tuple-counter:IndexError"
     h_opts, f_opts = o.get("opts", []), fr.get("opts", [])
+    # the registry of Enum parsing functions: a value of a class the dataclass does not declare, or - when the outcomes
+    # differ in kind - another same-named Enum class was set up earlier in the process and this argv names members
+    my_enums = {d[1] for p, _ in since if p[0] == "add" for _, kd, d in CLASSES[p[2]] if kd == "enum"}
+    def _others_before():
+        seen = set()
+        for p in case["ops"][:k]:
+            if p[0] == "add":
+                seen |= {d[1] for _, kd, d in CLASSES[p[2]] if kd == "enum"}
+        return any(ENUMS[a]["name"] == ENUMS[b]["name"] and a != b for a in my_enums for b in seen)
+    if my_enums and not late:
+        if "!foreign" in json.dumps(r):
+            return "enum-registry-shared"
+        if r[0] == "ok" and f[0] == "ok":
+            diff = [kv for kv, kf in zip(r[1], f[1]) if kv != kf]
+            if diff and all("enum:" in kv[1] or "enum:" in kf[1] for kv, kf in zip(r[1], f[1]) if kv != kf):
+                return "enum-registry-shared"
+        elif _others_before() and any(t.isupper() for t in op[2]):
+            return "enum-registry-shared"
     if late:
         return "setup-frozen:late-add"
     if _spelling_differs(h_opts, f_opts):
